@@ -123,7 +123,9 @@ CHECKS = {
              "and value the model can write: c07_writer_plain (an anonymous relation with only its two endpoints yields exactly the one triple "
              "subject-wasK-object, no node), c07_writer_identified (an identified relation yields the qualified link to its identifier and one "
              "triple per attribute under the rewritten predicate, and no plain triple), c07_writer_anonymous_qualified (one fresh blank node, linked "
-             "and typed, one triple per attribute, no plain triple) - i.e. never zero and never two representations. Proved about the rewrites: c07_formal_predicates_inverse / _kept (for every kind "
+             "and typed, one triple per attribute, no plain triple) - i.e. never zero and never two representations. Reader side, unqualified case: "
+             "c07_reader_plain (for every relation kind and all endpoint URIs the writer's triple is read as exactly one creation request of that "
+             "kind with those two endpoints, alternateOf's swap included; t_relation_predicates). Proved about the rewrites: c07_formal_predicates_inverse / _kept (for every kind "
              "and every formal argument but the first, the reader files the writer's predicate under that argument; whole table, kernel-evaluated); "
              "c07_user_attr_writer / _reader / _element (for EVERY URI outside the PROV namespace both rewrites are the identity and nothing is "
              "dropped - false for the substring reader that the fix: commit replaced); c07_int/str/bool/uri/datetime(_valid)/qname/lang (each value kind "
@@ -131,7 +133,7 @@ CHECKS = {
              "PROV_BASE_CLS as regenerated); walk_length (cartesian expansion). Checked against the code in three channels on every run: the quads of "
              "the real encode_document vs the model's (blank nodes named by content); the real decode_document vs the model's on the same rdflib "
              "graph in the iteration order observed; TriG text written, parsed and decoded vs unified() by strict URI-level content.",
-        note=A_COMMON + " Partial: the READER side at record level and the document-level round trip (decode . encode = unified, for all expressible "
+        note=A_COMMON + " Partial: the READER side for qualified nodes and the document-level round trip (decode . encode = unified, for all expressible "
              "documents and all iteration orders) are NOT Lean theorems; it is validated by the three channels on generated documents (a quarter of them outside "
              "the property's space to exercise the error and retyping branches). rdflib (TriG text, literal value conversion, iteration order) "
              "and dateutil are outside the model: their behaviour is observed per literal and passed in as hints; the function the value theorems "
